@@ -31,12 +31,23 @@ type pathCfg struct {
 	classify func(ins ssa.Instruction) string
 	// consistent valuations only (optional)
 	valid func(assign map[string]bool) bool
+	// withEval (optional) is handed, just before the visitor runs for a path, an evaluator of
+	// boolean values of the enumerated function as they stand at the end of that path
+	withEval func(eval func(v ssa.Value) (val, known bool))
 }
 
 type pathFrame struct {
 	path []*ssa.BasicBlock
 	on   map[*ssa.BasicBlock]int
 	env  *venv
+	// results of the helper calls inlined on the current path: the return taken and the frame
+	// (with the path walked inside the helper) in which its operands are to be read
+	rets map[*ssa.Call]pathRet
+}
+
+type pathRet struct {
+	ret *ssa.Return
+	fr  *pathFrame
 }
 
 func evalPathsDeep(fn *ssa.Function, cfg pathCfg, visit func(assign map[string]bool, events []pathEvent, ret *ssa.Return) bool) (okAll bool, why string) {
@@ -51,6 +62,9 @@ func evalPathsDeep(fn *ssa.Function, cfg pathCfg, visit func(assign map[string]b
 		if cfg.valid != nil && !cfg.valid(assign) {
 			continue
 		}
+		// conditions that are not recognised are explored on both edges; the edge taken is remembered
+		// for the rest of the path, so that a second test of the same value agrees with the first
+		decided := map[ssa.Value]bool{}
 		var evalV func(v ssa.Value, fr *pathFrame, depth int) (bool, bool)
 		evalV = func(v ssa.Value, fr *pathFrame, depth int) (bool, bool) {
 			if depth > 8 || v == nil {
@@ -58,6 +72,9 @@ func evalPathsDeep(fn *ssa.Function, cfg pathCfg, visit func(assign map[string]b
 			}
 			if nm, neg, ok := cfg.leaf(v); ok {
 				return assign[nm] != neg, true
+			}
+			if d, ok := decided[v]; ok {
+				return d, true
 			}
 			switch x := v.(type) {
 			case *ssa.Const:
@@ -103,8 +120,102 @@ func evalPathsDeep(fn *ssa.Function, cfg pathCfg, visit func(assign map[string]b
 				if a := paramArg(x); a != nil {
 					return evalV(a, nil, depth+1)
 				}
+			case *ssa.Call, *ssa.Extract:
+				call, idx := (*ssa.Call)(nil), 0
+				if c, ok := x.(*ssa.Call); ok {
+					call = c
+				} else if e := x.(*ssa.Extract); true {
+					call, _ = e.Tuple.(*ssa.Call)
+					idx = e.Index
+				}
+				if call == nil {
+					return false, false
+				}
+				if fr != nil && fr.rets != nil {
+					if pr, ok := fr.rets[call]; ok && idx < len(pr.ret.Results) {
+						res := pr.ret.Results[idx]
+						if ld, isLd := res.(*ssa.UnOp); isLd && ld.Op == token.MUL {
+							if vals := cellStoresBefore(pr.ret); idx < len(vals) && len(vals) == len(pr.ret.Results) {
+								res = vals[idx]
+							}
+						}
+						return evalV(res, pr.fr, depth+1)
+					}
+				}
+				// a boolean helper that was not inlined (it carries no event): evaluate its result
+				return evalHelperResult(call, idx, func(v ssa.Value) (bool, bool) {
+					if nm, neg, ok := cfg.leaf(v); ok {
+						return assign[nm] != neg, true
+					}
+					return false, false
+				}, depth)
 			}
 			return false, false
+		}
+		// atomOf follows a condition through negations, named booleans, the φ-nodes resolved by the
+		// path and the results of inlined helpers down to the value that is actually unknown
+		atomOf := func(v ssa.Value, fr *pathFrame) (ssa.Value, bool) {
+			neg := false
+			for i := 0; i < 12 && v != nil; i++ {
+				switch x := v.(type) {
+				case *ssa.UnOp:
+					if x.Op == token.NOT {
+						v, neg = x.X, !neg
+						continue
+					}
+					if x.Op == token.MUL {
+						if nv := norm(x); nv != ssa.Value(x) {
+							v = nv
+							continue
+						}
+					}
+					return v, neg
+				case *ssa.Phi:
+					pb := x.Block()
+					var next ssa.Value
+					if fr != nil && len(fr.path) > 0 && x.Parent() == fr.path[0].Parent() {
+						for j := len(fr.path) - 1; j > 0 && next == nil; j-- {
+							if fr.path[j] == pb {
+								for k, pred := range pb.Preds {
+									if pred == fr.path[j-1] {
+										next = x.Edges[k]
+									}
+								}
+							}
+						}
+					}
+					if next == nil {
+						return v, neg
+					}
+					v = next
+					continue
+				case *ssa.Call, *ssa.Extract:
+					call, idx := (*ssa.Call)(nil), 0
+					if c, ok := x.(*ssa.Call); ok {
+						call = c
+					} else {
+						e := x.(*ssa.Extract)
+						call, _ = e.Tuple.(*ssa.Call)
+						idx = e.Index
+					}
+					if call != nil && fr != nil && fr.rets != nil {
+						if pr, ok := fr.rets[call]; ok && idx < len(pr.ret.Results) {
+							res := pr.ret.Results[idx]
+							if ld, isLd := res.(*ssa.UnOp); isLd && ld.Op == token.MUL {
+								if vals := cellStoresBefore(pr.ret); idx < len(vals) && len(vals) == len(pr.ret.Results) {
+									res = vals[idx]
+								}
+							}
+							v, fr = res, pr.fr
+							continue
+						}
+					}
+					return v, neg
+				default:
+					return v, neg
+				}
+			}
+			return v, neg
 		}
 		var instrs func(b *ssa.BasicBlock, i int, fr *pathFrame, depth int, ev []pathEvent, k func(ev []pathEvent, ret *ssa.Return) bool) bool
 		var enter func(b *ssa.BasicBlock, fr *pathFrame, depth int, ev []pathEvent, k func(ev []pathEvent, ret *ssa.Return) bool) bool
@@ -156,7 +267,23 @@ func evalPathsDeep(fn *ssa.Function, cfg pathCfg, visit func(assign map[string]b
 									sub.env.bind[par] = cc.Args[j]
 								}
 							}
-							return enter(o.Blocks[0], sub, depth+1, ev, func(ev2 []pathEvent, _ *ssa.Return) bool {
+							callIns, _ := ins.(*ssa.Call)
+							return enter(o.Blocks[0], sub, depth+1, ev, func(ev2 []pathEvent, ret *ssa.Return) bool {
+								if callIns != nil && ret != nil {
+									if fr.rets == nil {
+										fr.rets = map[*ssa.Call]pathRet{}
+									}
+									snap := &pathFrame{path: append([]*ssa.BasicBlock(nil), sub.path...), env: sub.env, rets: sub.rets}
+									old, had := fr.rets[callIns]
+									fr.rets[callIns] = pathRet{ret, snap}
+									defer func() {
+										if had {
+											fr.rets[callIns] = old
+										} else {
+											delete(fr.rets, callIns)
+										}
+									}()
+								}
 								return instrs(b, next, fr, depth, ev2, k)
 							})
 						}
@@ -174,7 +301,19 @@ func evalPathsDeep(fn *ssa.Function, cfg pathCfg, visit func(assign map[string]b
 						}
 						return enter(b.Succs[1], fr, depth, ev, k)
 					}
-					return enter(b.Succs[0], fr, depth, ev, k) && enter(b.Succs[1], fr, depth, ev, k)
+					base, neg := atomOf(x.Cond, fr)
+					if _, isConst := base.(*ssa.Const); base == nil || isConst {
+						return enter(b.Succs[0], fr, depth, ev, k) && enter(b.Succs[1], fr, depth, ev, k)
+					}
+					if _, had := decided[base]; had {
+						return enter(b.Succs[0], fr, depth, ev, k) && enter(b.Succs[1], fr, depth, ev, k)
+					}
+					decided[base] = !neg
+					okT := enter(b.Succs[0], fr, depth, ev, k)
+					decided[base] = neg
+					okF := okT && enter(b.Succs[1], fr, depth, ev, k)
+					delete(decided, base)
+					return okF
 				case *ssa.Jump:
 					return enter(b.Succs[0], fr, depth, ev, k)
 				}
@@ -182,7 +321,12 @@ func evalPathsDeep(fn *ssa.Function, cfg pathCfg, visit func(assign map[string]b
 			return true
 		}
 		top := &pathFrame{on: map[*ssa.BasicBlock]int{}}
-		if !enter(fn.Blocks[0], top, 0, nil, func(ev []pathEvent, ret *ssa.Return) bool { return visit(assign, ev, ret) }) {
+		if !enter(fn.Blocks[0], top, 0, nil, func(ev []pathEvent, ret *ssa.Return) bool {
+			if cfg.withEval != nil {
+				cfg.withEval(func(v ssa.Value) (bool, bool) { return evalV(v, top, 0) })
+			}
+			return visit(assign, ev, ret)
+		}) {
 			okAll = false
 			if why == "" {
 				why = fmt.Sprintf("valuation %v", assign)
